@@ -32,7 +32,7 @@ def handle : Handler := fun req => do
     let root ← nat req "root"
     let q ← decSelSet (← field req "query")
     let fuel ← nat req "fuel"
-    pure <| Json.mkObj [("validate", validate σ fuel (.object root) (some q)), ("noConflict", noConflict fuel q),
+    pure <| Json.mkObj [("validate", validate σ fuel (.object root) (some q)), ("noConflict", noConflict σ fuel (.object root) (some q)),
       ("validF", validF σ fuel (.object root) (some q))]
   | "conform" =>
     let σ ← decSchema (← field req "schema")
